@@ -72,7 +72,9 @@ def main():
             first = values(a, queries, KEYS)            # uncached
             cached = values(a, queries, KEYS)           # cached on the same object
             copied = values(a.copy(), queries, KEYS)    # copy of an object with warm caches
-            other = values(b, queries, KEYS[::-1])      # fresh object, values requested in the opposite order
+            # fresh object: stereo-independent values first, then the rest in the opposite order
+            first_keys = ['atoms_order', 'sssr', 'components', 'linear', 'morgan']
+            other = values(b, queries, first_keys + [k for k in KEYS[::-1] if k not in first_keys])
             bad = sorted({k for k in KEYS if not (first[k] == cached[k] == copied[k] == other[k])})
             out.write(json.dumps({'i': i, 's': first['str'] if isinstance(first['str'], str) else None,
                                   'digest': {k: dg(first[k]) for k in KEYS}, 'inconsistent': bad,
